@@ -293,3 +293,31 @@ func init() {
 }
 
 var opaqueIndex = Var("v_opaque_regex_index", BV(64))
+
+func init() {
+	reg("(*regexp.Regexp).ReplaceAll", func(fr *frame, args []value) value {
+		h := hostRe(args[0])
+		src, ok1 := concBytes(args[1])
+		repl, ok2 := concBytes(args[2])
+		if ok1 && ok2 {
+			return goBytesToSlice(h.re.ReplaceAll(src, repl))
+		}
+		// opaque: an injective function of (template, subject), distinct from Expand's
+		out := goBytesToSlice([]byte("<replaceall:"))
+		out = append(out, termsToSlice(bytesToTerms(args[2]))...)
+		out = append(out, byteConsts[':'])
+		out = append(out, termsToSlice(bytesToTerms(args[1]))...)
+		out = append(out, byteConsts['>'])
+		return out
+	})
+	reg("(*regexp.Regexp).ReplaceAllString", func(fr *frame, args []value) value {
+		h := hostRe(args[0])
+		src, ok1 := args[1].(Str).concrete()
+		repl, ok2 := args[2].(Str).concrete()
+		if ok1 && ok2 {
+			return mkStr(h.re.ReplaceAllString(src, repl))
+		}
+		E.inconclusive("regexp.ReplaceAllString on symbolic input")
+		return nil
+	})
+}
